@@ -555,5 +555,12 @@ m('mergeranges-merge-with-previous-input','C03',BT,
   '''		merged, didMerge := merge(srs[last], srs[i])''','''		merged, didMerge := merge(srs[i-1], srs[i])''','R59/a/mergeSimpleRanges','a range swallowed by a wider one becomes the comparison base')
 m('gc-changed-flag-overwritten','C16',BT,
   '''						changed = changed || n != len(col.Cells)''','''						changed = n != len(col.Cells)''','R59/c/(*table).gc','only the last column decides whether the row is written back')
+m('readrows-limit-counter-reset-on-flush','C03',BT,
+  '''				cb.reset()
+			}
+			return true''','''				cb.reset()
+				count = 0
+			}
+			return true''','R08/ReadRows/limit-counter-survives-the-flush','rows_limit is enforced per flushed batch instead of per request')
 json.dump(M, open('/verif/mutants.json','w'), indent=1)
 print(len(M),'mutants')
